@@ -145,17 +145,23 @@ def same_items(typed, elems):
 
 # ---- reference texts ----------------------------------------------------------
 
-def _ref_one(code, what):
-    """in a fresh child: the single statement alone, in the six configurations
-    -> list of (cfg, status, text, typed)"""
-    prog = [['n:' + code]] if what == 'num' else [['s:' + code]]
-    src = program(prog)
-    out = []
-    for cfg in impl.CONFIGS:
-        status, texts, typed = observe(src, 1, cfg)
-        out.append((cfg, status, printfmt.normalise(texts[0]) if status == 'ok' else None,
-                    typed[0] if status == 'ok' and typed else None))
-    return out
+def _ref_one(code):
+    """in a fresh child: `PRINT v` alone in the six configurations, then
+    `PRINT STR$(v)` alone in the six configurations (nothing but this one typed
+    value is ever formatted in the process)
+    -> {what: list of (cfg, status, text, typed)}"""
+    impl.parse_cache(True)
+    res = {}
+    for what in ('num', 'str'):
+        prog = [['n:' + code]] if what == 'num' else [['s:' + code]]
+        src = program(prog)
+        out = []
+        for cfg in impl.CONFIGS:
+            status, texts, typed = observe(src, 1, cfg)
+            out.append((cfg, status, printfmt.normalise(texts[0]) if status == 'ok' else None,
+                        typed[0] if status == 'ok' and typed else None))
+        res[what] = out
+    return res
 
 
 def reference(code):
@@ -172,8 +178,9 @@ def reference(code):
                 'source': program(prog)}
         viol.append((feat, case, exp, got, 1))
 
+    both = isolated(_ref_one, code)
     for what in ('num', 'str'):
-        runs = isolated(_ref_one, code, what)
+        runs = both[what]
         vals = []
         for cfg, status, text, typed in runs:
             if status != 'ok':
@@ -344,21 +351,8 @@ def check_case(case, refs=None):
 
 
 def hist_chunk(chunk, refs):
-    viol = []
-    stats = []
-    for job in chunk:
-        v, st, log = isolated(eval_job, job, refs)
-        viol += c17_run.classify(v, log, recheck)
-        stats.append(st)
-    # merge stats of the jobs of this chunk
-    out = {}
-    for st in stats:
-        for k, x in st.items():
-            if isinstance(x, set):
-                out.setdefault(k, set()).update(x)
-            else:
-                out[k] = out.get(k, 0) + x
-    return viol, out
+    """worker side: each job in a child of its own -> [(violations, stats, log)]"""
+    return [isolated(eval_job, job, refs) for job in chunk]
 
 
 # ---- the space -------------------------------------------------------------------
@@ -380,7 +374,7 @@ def space(tier):
     two = [[['n:' + a, sep, 'n:' + b]] for a in plain_alpha for b in plain_alpha for sep in (';', ',')]
     mix = [[[x + a, sep, y + b]] for a in mix_alpha for b in mix_alpha for sep in mix_seps
            for x, y in (('s:', 'n:'), ('n:', 's:'), ('s:', 's:'))]
-    for c in _chunks(two + mix, 40):
+    for c in _chunks(two + mix, 150 if quick else 250):
         jobs.append(('two-items', cfgs, c))
     d['two_items'] = {'programs': len(two) + len(mix), 'alphabet_plain': plain_alpha,
                       'alphabet_with_STR$': mix_alpha, 'separators_with_STR$': mix_seps,
@@ -390,7 +384,7 @@ def space(tier):
     seconds = [['n:' + c] for c in ALL] + [['s:' + c] for c in ALL]
     pcfgs = [(0, False)] if quick else impl.CONFIGS
     npairs = 0
-    for fs in _chunks(firsts, 4):
+    for fs in _chunks(firsts, 8):
         progs = [[f, s] for f in fs for s in seconds]
         npairs += len(progs)
         jobs.append(('pair', pcfgs, progs))
@@ -399,8 +393,7 @@ def space(tier):
     if quick:
         core = [['n:' + c] for c in CORE8] + [['s:' + c] for c in CORE8] + [['a:' + c] for c in CORE8]
         progs = [[f, s] for f in core for s in core[:16]]
-        for c in _chunks(progs, 128):
-            jobs.append(('pair', [(2, True)], c))
+        jobs.append(('pair', [(2, True)], progs))
         d['pairs_O2g'] = {'programs': len(progs), 'alphabet': CORE8, 'configs': ['O2g']}
     # triples
     if quick:
@@ -414,7 +407,7 @@ def space(tier):
         t2 = [['n:' + c] for c in CORE14]
         triples += [[a, b, c] for a in t2 for b in t2 for c in t2
                     if not (a[0][2:] in CORE8 and b[0][2:] in CORE8 and c[0][2:] in CORE8)]
-    for c in _chunks(triples, 128 if quick else 256):
+    for c in _chunks(triples, 512):
         jobs.append(('triple', tcfgs, c))
     d['triples'] = {'programs': len(triples), 'configs': [cfgname(c) for c in tcfgs],
                     'statements': 'PRINT v over CORE8' if quick else
